@@ -1,7 +1,459 @@
 package main
 
-// Counterexample replay against the real code (go test -overlay).
+// Counterexample replay against the real code.
+//
+// Direct replay: for a failed `ensures` of a function whose parameters are
+// scalars or structs of scalars, the model's parameter values are turned into a
+// Go test that calls the real function and evaluates the postcondition
+// (translated from the contract syntax to Go).  The test is injected with
+// `go test -overlay` so nothing is written into the repository.
+
+import (
+	"bytes"
+	"context"
+	"encoding/json"
+	"fmt"
+	"go/types"
+	"math"
+	"os"
+	"os/exec"
+	"path/filepath"
+	"regexp"
+	"strconv"
+	"strings"
+	"time"
+
+	"golang.org/x/tools/go/ssa"
+)
+
+var defineRe = regexp.MustCompile(`\(define-fun\s+(\S+)\s+\(\)\s+`)
+
+// parseModel extracts 0-ary definitions: name -> value s-expression.
+func parseModel(m string) map[string]string {
+	out := map[string]string{}
+	for _, loc := range defineRe.FindAllStringSubmatchIndex(m, -1) {
+		name := m[loc[2]:loc[3]]
+		rest := m[loc[1]:]
+		// skip sort
+		i := skipSexp(rest, 0)
+		j := skipSexp(rest, i)
+		if i < 0 || j < 0 {
+			continue
+		}
+		out[name] = strings.TrimSpace(rest[i:j])
+	}
+	return out
+}
+
+func skipSexp(s string, i int) int {
+	for i < len(s) && (s[i] == ' ' || s[i] == '\n' || s[i] == '\t') {
+		i++
+	}
+	if i >= len(s) {
+		return -1
+	}
+	if s[i] == '(' {
+		d := 0
+		for ; i < len(s); i++ {
+			if s[i] == '(' {
+				d++
+			} else if s[i] == ')' {
+				d--
+				if d == 0 {
+					return i + 1
+				}
+			} else if s[i] == '"' {
+				i++
+				for i < len(s) && s[i] != '"' {
+					i++
+				}
+			}
+		}
+		return -1
+	}
+	if s[i] == '"' {
+		i++
+		for i < len(s) {
+			if s[i] == '"' {
+				if i+1 < len(s) && s[i+1] == '"' {
+					i += 2
+					continue
+				}
+				return i + 1
+			}
+			i++
+		}
+		return -1
+	}
+	for i < len(s) && s[i] != ' ' && s[i] != ')' && s[i] != '\n' {
+		i++
+	}
+	return i
+}
+
+// modelToGo renders an SMT model value as a Go expression of kind k.
+func modelToGo(v string, k Kind) (string, bool) {
+	v = strings.TrimSpace(v)
+	switch k {
+	case KBool:
+		return v, v == "true" || v == "false"
+	case KInt:
+		if strings.HasPrefix(v, "(- ") {
+			return "-" + strings.TrimSuffix(v[3:], ")"), true
+		}
+		_, err := strconv.ParseInt(v, 10, 64)
+		if err != nil {
+			if _, err2 := strconv.ParseUint(v, 10, 64); err2 != nil {
+				return "", false
+			}
+		}
+		return v, true
+	case KString:
+		if len(v) < 2 || v[0] != '"' {
+			return "", false
+		}
+		s := strings.ReplaceAll(v[1:len(v)-1], `""`, `"`)
+		// \u{..} escapes
+		re := regexp.MustCompile(`\\u\{([0-9a-fA-F]+)\}`)
+		s = re.ReplaceAllStringFunc(s, func(m string) string {
+			n, _ := strconv.ParseInt(re.FindStringSubmatch(m)[1], 16, 32)
+			return string(rune(n))
+		})
+		return strconv.Quote(s), true
+	case KFloat:
+		switch {
+		case strings.Contains(v, "NaN"):
+			return "math.NaN()", true
+		case strings.Contains(v, "+oo"):
+			return "math.Inf(1)", true
+		case strings.Contains(v, "-oo"):
+			return "math.Inf(-1)", true
+		case strings.Contains(v, "+zero"):
+			return "0.0", true
+		case strings.Contains(v, "-zero"):
+			return "math.Copysign(0, -1)", true
+		}
+		re := regexp.MustCompile(`\(fp\s+#b([01])\s+#[bx]([0-9a-fA-F]+)\s+#[bx]([0-9a-fA-F]+)\)`)
+		m := re.FindStringSubmatch(v)
+		if m == nil {
+			return "", false
+		}
+		parse := func(tok, digits string) uint64 {
+			base := 2
+			if strings.Contains(tok, "#x"+digits) {
+				base = 16
+			}
+			n, _ := strconv.ParseUint(digits, base, 64)
+			return n
+		}
+		sign, _ := strconv.ParseUint(m[1], 2, 64)
+		ex := parse(v, m[2])
+		// exponent is 11 bits: binary (11 digits) or hex (3 digits would be 12 bits: not used)
+		if len(m[2]) == 11 {
+			ex, _ = strconv.ParseUint(m[2], 2, 64)
+		}
+		var man uint64
+		if len(m[3]) == 52 {
+			man, _ = strconv.ParseUint(m[3], 2, 64)
+		} else {
+			man, _ = strconv.ParseUint(m[3], 16, 64)
+		}
+		bits := sign<<63 | ex<<52 | man
+		_ = math.Float64frombits(bits)
+		return fmt.Sprintf("math.Float64frombits(0x%016x)", bits), true
+	}
+	return "", false
+}
+
+type goGen struct {
+	e       *Engine
+	pkg     *types.Package
+	imports map[string]bool
+	subst   map[string]string
+	ok      bool
+	why     string
+}
+
+func (g *goGen) typeStr(t types.Type) string {
+	return types.TypeString(t, func(p *types.Package) string {
+		if p == g.pkg {
+			return ""
+		}
+		g.imports[p.Path()] = true
+		return p.Name()
+	})
+}
+
+// exprToGo translates the scalar subset of contract expressions to Go.
+func (g *goGen) exprToGo(x Expr) string {
+	switch n := x.(type) {
+	case *EBool:
+		return fmt.Sprint(n.V)
+	case *EInt:
+		return n.V
+	case *EFloat:
+		return strconv.FormatFloat(n.V, 'g', -1, 64)
+	case *EStr:
+		return strconv.Quote(n.V)
+	case *ENil:
+		return "nil"
+	case *EIdent:
+		if s, ok := g.subst[n.Name]; ok {
+			return s
+		}
+		return n.Name
+	case *EUnary:
+		return "(" + n.Op + g.exprToGo(n.X) + ")"
+	case *EBinary:
+		a, b := g.exprToGo(n.X), g.exprToGo(n.Y)
+		switch n.Op {
+		case "==>":
+			return "(!(" + a + ") || (" + b + "))"
+		case "<==>":
+			return "((" + a + ") == (" + b + "))"
+		case "in":
+			g.ok, g.why = false, "'in' not replayable"
+			return "false"
+		}
+		return "(" + a + " " + n.Op + " " + b + ")"
+	case *ECond:
+		g.imports["govc-cond"] = true
+		return "func() interface{} { if " + g.exprToGo(n.C) + " { return " + g.exprToGo(n.A) + " }; return " + g.exprToGo(n.B) + " }()"
+	case *ESel:
+		return g.exprToGo(n.X) + "." + n.Name
+	case *EOld:
+		return g.exprToGo(n.X)
+	case *ECall:
+		id, ok := n.Fn.(*EIdent)
+		if !ok {
+			g.ok, g.why = false, "call form not replayable"
+			return "false"
+		}
+		switch id.Name {
+		case "same":
+			g.imports["reflect"] = true
+			return "reflect.DeepEqual(" + g.exprToGo(n.Args[0]) + ", " + g.exprToGo(n.Args[1]) + ")"
+		case "isNaN":
+			g.imports["math"] = true
+			return "math.IsNaN(float64(" + g.exprToGo(n.Args[0]) + "))"
+		case "len":
+			return "len(" + g.exprToGo(n.Args[0]) + ")"
+		case "float64":
+			return "float64(" + g.exprToGo(n.Args[0]) + ")"
+		}
+		if p, ok := g.e.specs.preds[id.Name]; ok && !p.Rec {
+			old := g.subst
+			ns := map[string]string{}
+			for k, v := range old {
+				ns[k] = v
+			}
+			for i, pa := range p.Params {
+				ns[pa.Name] = "(" + g.exprToGo(n.Args[i]) + ")"
+			}
+			g.subst = ns
+			s := g.exprToGo(p.Body)
+			g.subst = old
+			return "(" + s + ")"
+		}
+		g.ok, g.why = false, "function "+id.Name+" not replayable"
+		return "false"
+	}
+	g.ok, g.why = false, fmt.Sprintf("%T not replayable", x)
+	return "false"
+}
+
+func replayableParam(t types.Type) bool {
+	switch kindOf(t) {
+	case KBool, KInt, KFloat, KString:
+		return true
+	case KStruct:
+		st := t.Underlying().(*types.Struct)
+		for i := 0; i < st.NumFields(); i++ {
+			if !replayableParam(st.Field(i).Type()) {
+				return false
+			}
+		}
+		return true
+	}
+	return false
+}
+
+func (g *goGen) valueFromModel(model map[string]string, base string, t types.Type) (string, bool) {
+	k := kindOf(t)
+	if k == KStruct {
+		st := t.Underlying().(*types.Struct)
+		var parts []string
+		for i := 0; i < st.NumFields(); i++ {
+			s, ok := g.valueFromModel(model, base+"."+st.Field(i).Name(), st.Field(i).Type())
+			if !ok {
+				return "", false
+			}
+			parts = append(parts, st.Field(i).Name()+": "+s)
+		}
+		return g.typeStr(t) + "{" + strings.Join(parts, ", ") + "}", true
+	}
+	name := sanitize(base) + "!0"
+	v, ok := model[name]
+	var lit string
+	if !ok {
+		// unconstrained in the model: any value will do
+		switch k {
+		case KBool:
+			lit = "false"
+		case KInt:
+			lit = "0"
+		case KFloat:
+			lit = "0.0"
+		case KString:
+			lit = `""`
+		}
+	} else {
+		lit, ok = modelToGo(v, k)
+		if !ok {
+			return "", false
+		}
+		if k == KFloat {
+			g.imports["math"] = true
+		}
+	}
+	return g.typeStr(t) + "(" + lit + ")", true
+}
 
 func tryReplay(e *Engine, prop string, o *Obligation, model string, rep map[string]interface{}) {
-	rep["replay"] = "no replay template for this obligation kind"
+	rep["replay"] = "not attempted"
+	if model == "" {
+		rep["replay"] = "no model from the solver"
+		return
+	}
+	f := o.f
+	if f == nil || f.fn == nil || f.fn.Pkg == nil {
+		rep["replay"] = "obligation is not attached to a function"
+		return
+	}
+	if o.Kind != "ensures" || o.clause == nil {
+		rep["replay"] = "no direct replay template for obligation kind " + o.Kind
+		return
+	}
+	fn := f.fn
+	for _, p := range fn.Params {
+		if !replayableParam(p.Type()) {
+			rep["replay"] = "parameter " + p.Name() + " is not a scalar/struct-of-scalars: no direct replay"
+			return
+		}
+	}
+	m := parseModel(model)
+	g := &goGen{e: e, pkg: fn.Pkg.Pkg, imports: map[string]bool{"testing": true}, subst: map[string]string{}, ok: true}
+	var decls []string
+	var argNames []string
+	for _, p := range fn.Params {
+		v, ok := g.valueFromModel(m, "p."+p.Name(), p.Type())
+		if !ok {
+			rep["replay"] = "model value of " + p.Name() + " could not be rendered"
+			return
+		}
+		decls = append(decls, fmt.Sprintf("\t%s := %s", p.Name(), v))
+		argNames = append(argNames, p.Name())
+	}
+	call := ""
+	nres := fn.Signature.Results().Len()
+	var resNames []string
+	for i := 0; i < nres; i++ {
+		n := "result"
+		if i > 0 {
+			n = fmt.Sprintf("result%d", i)
+		}
+		resNames = append(resNames, n)
+	}
+	if fn.Signature.Recv() != nil {
+		call = fmt.Sprintf("%s.%s(%s)", argNames[0], fn.Name(), strings.Join(argNames[1:], ", "))
+	} else {
+		call = fmt.Sprintf("%s(%s)", fn.Name(), strings.Join(argNames, ", "))
+	}
+	cond := g.exprToGo(o.clause.E)
+	if !g.ok {
+		rep["replay"] = g.why
+		return
+	}
+	var b bytes.Buffer
+	fmt.Fprintf(&b, "package %s\n\nimport (\n", fn.Pkg.Pkg.Name())
+	for _, imp := range sortedKeys(g.imports) {
+		if strings.HasPrefix(imp, "govc-") {
+			continue
+		}
+		fmt.Fprintf(&b, "\t%q\n", imp)
+	}
+	fmt.Fprintf(&b, ")\n\nfunc TestGovcReplay(t *testing.T) {\n%s\n", strings.Join(decls, "\n"))
+	if nres > 0 {
+		fmt.Fprintf(&b, "\t%s := %s\n", strings.Join(resNames, ", "), call)
+		for _, r := range resNames {
+			fmt.Fprintf(&b, "\t_ = %s\n", r)
+		}
+	} else {
+		fmt.Fprintf(&b, "\t%s\n", call)
+	}
+	for _, a := range argNames {
+		fmt.Fprintf(&b, "\t_ = %s\n", a)
+	}
+	fmt.Fprintf(&b, "\tif !(%s) {\n\t\tt.Fatalf(\"GOVC-VIOLATED %%s with %s\", %q%s)\n\t}\n}\n", cond, strings.Repeat("%#v ", len(argNames)), o.clause.Src, func() string {
+		s := ""
+		for _, a := range argNames {
+			s += ", " + a
+		}
+		return s
+	}())
+	src := b.String()
+	rep["replay_test"] = src
+	out, failed, err := runOverlayTest(e.repo, fn, src)
+	rep["replay_output"] = out
+	if err != nil {
+		rep["replay"] = "replay could not be run: " + err.Error()
+		return
+	}
+	if failed && strings.Contains(out, "GOVC-VIOLATED") {
+		o.replayed = true
+		rep["replay"] = "counterexample confirmed on the real code"
+	} else {
+		rep["replay"] = "the real code satisfied the clause on the solver's model (abstraction lost the proof)"
+	}
+}
+
+func pkgDir(e *Engine, fn *ssa.Function) string {
+	p := fn.Pkg.Pkg.Path()
+	rel := strings.TrimPrefix(strings.TrimPrefix(p, modulePath), "/")
+	return filepath.Join(e.repo, rel)
+}
+
+func runOverlayTest(repo string, fn *ssa.Function, src string) (string, bool, error) {
+	dir, err := os.MkdirTemp("/var/tmp", "govc-replay-")
+	if err != nil {
+		return "", false, err
+	}
+	defer os.RemoveAll(dir)
+	testSrc := filepath.Join(dir, "zz_govc_replay_test.go")
+	if err := os.WriteFile(testSrc, []byte(src), 0o644); err != nil {
+		return "", false, err
+	}
+	p := fn.Pkg.Pkg.Path()
+	rel := strings.TrimPrefix(strings.TrimPrefix(p, modulePath), "/")
+	target := filepath.Join(repo, rel, "zz_govc_replay_test.go")
+	ov, _ := json.Marshal(map[string]interface{}{"Replace": map[string]string{target: testSrc}})
+	ovPath := filepath.Join(dir, "overlay.json")
+	os.WriteFile(ovPath, ov, 0o644)
+	ctx, cancel := context.WithTimeout(context.Background(), 120*time.Second)
+	defer cancel()
+	cmd := exec.CommandContext(ctx, "go", "test", "-overlay", ovPath, "-vet=off", "-count=1", "-timeout", "60s", "-run", "^TestGovcReplay$", "./"+rel)
+	cmd.Dir = repo
+	cmd.Env = append(os.Environ(), "GOFLAGS=-mod=mod", "GOPROXY=off", "GOSUMDB=off", "GOTOOLCHAIN=local")
+	out, err := cmd.CombinedOutput()
+	s := string(out)
+	if len(s) > 4000 {
+		s = s[:4000]
+	}
+	if err != nil {
+		if _, ok := err.(*exec.ExitError); ok {
+			return s, true, nil
+		}
+		return s, false, err
+	}
+	return s, false, nil
 }
